@@ -568,7 +568,9 @@ func run(w *ev.W) {
 		w.Progress("in-process " + c.Desc)
 		vmap.Reset()
 		r.inProcess(c)
-		if c.Orders {
+		if c.Orders || c.WantFail {
+			// every expected failure also under every map-iteration order of gen: what has
+			// been written before the failure is detected may depend on it
 			r.inProcessOrders(c)
 		}
 		// process level: everything that is not one of the bulk path cases, and every 9th path case
